@@ -213,17 +213,51 @@ class SessionBuilder:
         return self.add(op)
 
     def cli(self, cid: str, s1: Any) -> Dict[str, Any]:
-        r = self.rng.random()
-        argv = list(JSON_ARGV)
-        if r < 0.5:
-            sub = _det_subset(self.rng, self.ctx.detectors)[: self.rng.randrange(1, 5)]
-            argv += ["--detectors", ",".join(sub)]
-        if self.rng.random() < 0.25:
-            argv[1] = "out.json"
-        if self.rng.random() < 0.2 and self.ctx.info.get(cid, {}).get("lines", 999) <= 60:
-            # text mode (one DOT file per reported path): only small contracts, one detector
-            argv = ["detect", "--contracts", "{C}", "--detectors", self.rng.choice(self.ctx.detectors)]
-        return self.add({"op": "cli", "c": cid, "argv": argv, "s1": s1})
+        """One in-process `tealer ...` command line, drawn from the whole CLI vocabulary: a client
+        that calls main() repeatedly meets listings, misuse and failed runs between normal ones."""
+        rng = self.rng
+        r = rng.random()
+        files: List[Dict[str, str]] = []
+        if r < 0.06:
+            argv = rng.choice(
+                [
+                    ["detect", "--list-detectors"],
+                    ["print", "--list-printers"],
+                    ["--version"],
+                    ["--markdown", "detectors.md"],
+                    ["--wiki-detectors", "wiki.md"],
+                    ["detect"],  # neither --contracts nor --group-config: CommandLineError, exit 1
+                ]
+            )
+        elif r < 0.12:
+            argv = ["print", "--contracts", "{C}", "--printers", rng.choice(self.ctx.printers)]
+        elif r < 0.15:
+            argv = ["regex", "regex.txt", "--contracts", "{C}"]
+            files = [{"name": "regex.txt", "text": "* =>\n int 1\n return\n"}]
+        else:
+            argv = list(JSON_ARGV)
+            text_mode = rng.random() < 0.15 and self.ctx.info.get(cid, {}).get("lines", 999) <= 60
+            if text_mode:
+                # text mode writes one DOT file per reported path: small contracts, one detector
+                argv = ["detect", "--contracts", "{C}", "--detectors", rng.choice(self.ctx.detectors)]
+            else:
+                if rng.random() < 0.25:
+                    argv[1] = "out.json"
+                if rng.random() < 0.5:
+                    sub = _det_subset(rng, self.ctx.detectors)[: rng.randrange(1, 5)]
+                    if rng.random() < 0.12:
+                        sub.append(rng.choice(["nope", sub[0]]))  # unknown / duplicated detector name
+                    argv += ["--detectors", ",".join(sub)]
+                elif rng.random() < 0.2:
+                    argv += rng.choice(
+                        [["--exclude", rng.choice(self.ctx.detectors)], ["--exclude-stateless"], ["--exclude-stateful"]]
+                    )
+            if rng.random() < 0.25:
+                argv += ["--filter-paths", rng.choice(["0 -> 1", " 2$", "^0 -> 2", "3 -> ", "1", "->.*->", "("])]
+        op: Dict[str, Any] = {"op": "cli", "c": cid, "argv": argv, "s1": s1}
+        if files:
+            op["files"] = files
+        return self.add(op)
 
     def cli_group(self, s1: Any) -> Optional[Dict[str, Any]]:
         """`tealer detect --group-config cfg.yaml` through main() (prints and exits 1)."""
